@@ -1,10 +1,91 @@
-(* C02 - Classic pools and the swap router neither create nor lose funds.  Property theorems only. *)
-From Coq Require Import ZArith List Bool.
+(* C02 - Classic pools and the swap router neither create nor lose funds.
+   Property theorems only; each is closed by a lemma of C02/Proofs*.v.  The model (C02/Model.v on top of C05/Model.v)
+   is parametric in the pool math M; [MathLaws M] - the all-asset join of exactly the needed liquidity leaves no
+   remainder, exits never take a whole reserve - are hypotheses about that math, PROVED for the concrete math PM of
+   C02/Instance.v and measured on the real balancer / stableswap pools by the oracle on every run. *)
+From Coq Require Import ZArith List Bool Lia.
 Import ListNotations.
-From Osmo Require Import C05.Model C02.Model C02.Proofs.
+From Osmo Require Import C05.Model C05.Proofs C02.Model C02.Proofs C02.Proofs2 C02.Proofs3 C02.Proofs4 C02.Proofs5 C02.Proofs6 C02.Instance.
 Open Scope Z_scope.
 
-(* a failed message leaves the whole state (balances, supply, pool records) unchanged *)
+(* the invariant holds on a chain without pools *)
+Theorem C02_genesis : forall M s, pools (rs M s) = [] -> next_id M s = 1 ->
+  (forall id d, direct M s id d = bal (rs M s) (PoolAcc id) d) ->
+  (forall id, 1 <= id -> supply M s (share_denom id) = 0) -> Inv M s.
+Proof. exact Inv_genesis. Qed.
+Print Assumptions C02_genesis.
+
+(* after ANY history of pool creations, joins (all-asset, single-asset, exact-shares), exits (proportional,
+   single-asset by shares or by amount), routed swaps (exact-in, exact-out, split; any number of hops) and plain bank
+   sends by ordinary accounts: *)
+
+(* (1) the tokens held by each pool's account equal the reserves the pool reports, plus what was sent to it directly *)
+Theorem C02_pool_bank_eq_reserves : forall M, MathLaws M -> forall s0 ms, Inv M s0 -> Forall gmsg_wf ms ->
+  let s := grun M s0 ms in
+  forall id p, get_pool (GP M) (pools (rs M s)) id = Some p ->
+  forall d, bal (rs M s) (PoolAcc id) d = res p d + direct M s id d.
+Proof. intros M ML s0 ms I W s id p G d. destruct (grun_Good M ML ms s0 W I) as [J _]. eapply (inv_bank M); eauto. Qed.
+Print Assumptions C02_pool_bank_eq_reserves.
+
+(* (2) the circulating supply of each pool's share token equals the share total the pool reports *)
+Theorem C02_share_supply_eq_total_shares : forall M, MathLaws M -> forall s0 ms, Inv M s0 -> Forall gmsg_wf ms ->
+  let s := grun M s0 ms in
+  forall id p, get_pool (GP M) (pools (rs M s)) id = Some p -> supply M s (share_denom id) = gp_shares p.
+Proof. intros M ML s0 ms I W s id p G. destruct (grun_Good M ML ms s0 W I) as [J _]. eapply (inv_shares M); eauto. Qed.
+Print Assumptions C02_share_supply_eq_total_shares.
+
+(* (3) the total supply of every non-share token is unchanged (ordinary denominations are 0..99, share denoms 101..) *)
+Theorem C02_non_share_supply_constant : forall M, MathLaws M -> forall s0 ms, Inv M s0 -> Forall gmsg_wf ms ->
+  forall x, x <= 100 -> supply M (grun M s0 ms) x = supply M s0 x.
+Proof. intros M ML s0 ms I W x Hx. destruct (grun_Good M ML ms s0 W I) as [_ S]. apply S; assumption. Qed.
+Print Assumptions C02_non_share_supply_constant.
+
+(* (4) payer accounting, for every single message: over any duplicate-free set L of accounts containing the sender, the
+   recipient of a send, every pool address, the taker-fee collector and the community pool, the balance changes cancel
+   against the supply change (minted / burnt shares; zero for every ordinary denom); nobody outside L is touched *)
+Theorem C02_payer_accounting : forall M, MathLaws M -> forall s m s' v L,
+  gmsg_wf m -> Inv M s -> ghandle M s m = Ok (s', v) ->
+  NoDup L -> closed_for M L s m ->
+  (forall x, sumL L (bal (rs M s')) x - supply M s' x = sumL L (bal (rs M s)) x - supply M s x) /\
+  (forall a x, inL L a = false -> bal (rs M s') a x = bal (rs M s) a x).
+Proof. exact step_accounting. Qed.
+Print Assumptions C02_payer_accounting.
+
+(* ... and every unit of tokenIn of a single-hop exact-in swap lands in exactly one place: the taker-fee collector
+   (the fee) or the pool (the rest); the trader pays exactly tokenIn *)
+Theorem C02_token_in_lands_once : forall M r n pid dIn amt dOut minOut r' out fee,
+  pm_swap_exact_in (GP M) r (Trader n) pid dIn amt dOut minOut = Ok (r', (out, fee)) ->
+  bal r' (Trader n) dIn = bal r (Trader n) dIn - amt /\
+  bal r' Collector dIn = bal r Collector dIn + fee /\
+  bal r' (PoolAcc pid) dIn = bal r (PoolAcc pid) dIn + (amt - fee) /\ 0 <= fee.
+Proof. exact token_in_lands_once. Qed.
+Print Assumptions C02_token_in_lands_once.
+
+(* a failed message leaves everything - balances, supply, pool records - unchanged (baseapp atomicity) *)
 Theorem C02_failed_message_changes_nothing : forall M s m s' e, gstep M s m = (s', Err e) -> s' = s.
 Proof. exact gstep_err_unchanged. Qed.
 Print Assumptions C02_failed_message_changes_nothing.
+
+(* the math laws hold for a concrete executable math *)
+Theorem C02_pm_laws : MathLaws PM.
+Proof. exact PM_laws. Qed.
+Print Assumptions C02_pm_laws.
+
+(* non-vacuity, by running the model on a ten-message history over two pools (the last message fails): the genesis state
+   satisfies the invariant, all senders are ordinary accounts, and the final state shows the equalities concretely *)
+Example C02_nonvacuous :
+  Inv PM g0 /\ Forall gmsg_wf history /\
+  let s := grun PM g0 history in
+  map (fun d => bal (rs PM s) (PoolAcc 1) d) [0; 1; 2; 3] = [5311826; 6526590; 7700000; 777] /\
+  option_map (fun p => (gp_liq p, gp_shares p)) (get_pool (GP PM) (pools (rs PM s)) 1)
+    = Some ([(0, 5311826); (1, 6526590); (2, 7700000)], 104534793991599966858) /\
+  direct PM s 1 3 = 777 /\ supply PM s 101 = 104534793991599966858 /\
+  supply PM s 0 = 3000000000 /\ bal (rs PM s) Collector 0 = 96 /\ bal (rs PM s) Community 5 = 2000.
+Proof.
+  split.
+  - apply Inv_genesis; try reflexivity. intros. unfold g0, share_denom. cbn [supply].
+    assert (X : 100 + id <? 100 = false) by (apply Z.ltb_ge; lia). rewrite X. reflexivity.
+  - split.
+    + repeat constructor; eexists; reflexivity.
+    + vm_compute. repeat split; reflexivity.
+Qed.
